@@ -52,6 +52,12 @@ def run(ctx):
     shared.whole_cell_consumption(ctx, 'R5')
     from .. import regen
     regen.check(ctx, 'R6')
+    # the accepted-category tests rest on is_child / valid / nodes: nodes(c) is computed afresh from the hierarchy (a set that is
+    # handed out and kept would let a caller's edit change what every importer accepts)
+    from . import c11
+    ctx.alias = {'R5': 'R9'}
+    c11.r5_selection(ctx)
+    ctx.alias = {}
 
 
 def _closure(tree, cats):
@@ -95,6 +101,22 @@ def _simple_token(ctx, val, fi):
     return b['encoding'], cat
 
 
+class ExactSet(set):
+    """An accepted set tested by plain membership (no hierarchy closure applied by the code)."""
+
+
+def _plain_nodes(node):
+    """TokenCategory.nodes(x) is the mapper's nodes(x) (the enum forwards): spelled `cls.nodes(x)` for the set algebra."""
+    class R(ast.NodeTransformer):
+        def visit_Call(self, n):
+            self.generic_visit(n)
+            if isinstance(n.func, ast.Attribute) and n.func.attr == 'nodes' and src(n.func.value) in ('TokenCategory', 'TokenCategoryHierarchyMapper'):
+                return ast.Call(func=ast.Attribute(value=ast.Name(id='cls', ctx=ast.Load()), attr='nodes', ctx=ast.Load()), args=n.args, keywords=n.keywords)
+            return n
+    from ..astutil import clone
+    return R().visit(clone(node))
+
+
 def _accept_atom(ctx, node, fi, parse_src):
     """Recognise the accepted-category test; returns the evaluated accepted set or None.
     Forms: any(TokenCategory.is_child(child=<tok>.category, parent=c) for c in ACC)
@@ -120,6 +142,22 @@ def _accept_atom(ctx, node, fi, parse_src):
         return set(acc) if ok else None
     if isinstance(node, ast.Compare) and len(node.ops) == 1 and isinstance(node.ops[0], ast.In) and src(node.left) == tokcat:
         call = node.comparators[0]
+        # membership in the descendant closure of ACC, written as a set expression
+        from . import c11
+        t_ = c11._set_terms(_plain_nodes(call), {})
+        if t_ is not None:
+            xs = {x for _, x in t_}
+            if len(xs) == 1 and t_ == {('elem', next(iter(xs))), ('nodes', next(iter(xs)))}:
+                try:
+                    ok, acc = ctx.ce.try_eval(ast.parse(next(iter(xs)), mode='eval').body, fi.module, fi.cls, {})
+                except SyntaxError:
+                    ok, acc = False, None
+                if ok:
+                    return set(acc)
+        if isinstance(call, (ast.Name, ast.Attribute, ast.Set, ast.Tuple, ast.List)):
+            ok, acc = ctx.ce.try_eval(call, fi.module, fi.cls, {})
+            if ok and isinstance(acc, (set, frozenset, list, tuple)):
+                return ExactSet(acc)        # plain membership: the descendants are accepted only if the set lists them
         if isinstance(call, ast.Call):
             r = F.callee(ctx, call, fi)
             if r and r[0] == 'def' and r[1].name == 'valid' and len(call.keywords) == 1 and call.keywords[0].arg == 'include':
@@ -164,6 +202,8 @@ def sibling(ctx, qn, own_ok, closure, members):
         n_handler += 1
         at = f'{fi.module.relpath}:{sp.path.end_node.lineno if sp.path.end_node else fi.node.lineno}'
         st = _simple_token(ctx, sp.value, fi) if sp.end == 'return' and sp.value is not None else None
+        if st is None and sp.value is not None and any(isinstance(n_, ast.Name) and ('#' in n_.id or '@' in n_.id) for n_ in ast.walk(sp.value)):
+            raise AnalysisError(f'{at}: what the exception handler path of {cls.name}.import_token returns is not followed')
         if st is None:
             ctx.violation('R1', at, fi.qualname, 'handler-fallback',
                           f'the exception handler ends with {sp.end} `{src(sp.value) if sp.value is not None else ""}`, '
@@ -205,6 +245,8 @@ def sibling(ctx, qn, own_ok, closure, members):
             core, pol = node, truth
             while isinstance(core, ast.UnaryOp) and isinstance(core.op, ast.Not):
                 core, pol = core.operand, not pol
+            if isinstance(core, ast.Compare) and len(core.ops) == 1 and isinstance(core.ops[0], ast.NotIn):
+                core, pol = ast.Compare(left=core.left, ops=[ast.In()], comparators=core.comparators), not pol
             acc = _accept_atom(ctx, core, fi, parse_src)
             if acc is not None:
                 accepted = acc if accepted is None else accepted
@@ -213,6 +255,10 @@ def sibling(ctx, qn, own_ok, closure, members):
                 acc_val = pol
             elif src(core) in (f'{p} is None', f"{p} == ''", f'isinstance({p}, str)'):
                 continue
+            elif parse_src in src(node):
+                # a test about the parsed token that is none of the recognised forms of the accepted-category test: the rule
+                # cannot tell what it accepts - unknown, not wrong
+                raise AnalysisError(f'{at}: the test `{src(node)[:90]}` on the parsed token is not a recognised accepted-category test')
             else:
                 ok_atoms = False
                 ctx.violation('R3', at, fi.qualname, 'extra-condition',
@@ -251,6 +297,13 @@ def sibling(ctx, qn, own_ok, closure, members):
         ctx.violation('R2', fi.loc, fi.qualname, 'accepted-set-missing', 'no accepted-category test found')
     else:
         cl = closure(accepted)
+        if isinstance(accepted, ExactSet):
+            lost = sorted(getattr(x, 'name', str(x)) for x in cl - set(accepted))
+            ctx.check(not lost, 'R2', fi.loc, fi.qualname, 'accepted-set-not-closed',
+                      'the accepted set is tested by plain membership and lists all descendants itself',
+                      f'the accepted categories are tested by plain membership in a set that lacks their descendants {lost[:6]}: a clef, '
+                      f'a key signature, a field comment ... parsed by the kern grammar is replaced by a verbatim token of the own category')
+            cl = set(accepted)
         for r in REQUIRED:
             ctx.check(members[r] in cl, 'R2', fi.loc, fi.qualname, f'accepted-missing:{r}',
                       f'{r} is accepted (up to hierarchy closure)', f'{r} is not accepted: shared structure of that kind would '
